@@ -413,6 +413,21 @@ def run(ctx: Ctx) -> None:
     shards = ncpu()
     examples = 25 if ctx.quick else 300
     merge_parts(ctx, pmap(machine_shard, [(ctx.seed * 1000 + k, examples, 60, known) for k in range(shards)]))
+    # the same lifecycle oracle over concurrent requests: the accepted-transition log of schedule-driven
+    # executions (claims, kill-and-reroute, pending recovery, retry) must be a run of the model
+    from verif.props import c02
+
+    RACE_RULE = ("concurrent requests on one invocation (C02 scenarios single/dup/kill/recovery/retry) under every schedule with <= 1 forced switch "
+                 "(thorough 2) + seeded random schedules; the log of accepted transitions replayed through the lifecycle model; non-trivial = schedule with a "
+                 "forced switch inside a claim window or >= 5 changes on one invocation; distinct = (backend, scenario, choice list)")
+    jobs3 = []
+    for kind in ("mem", "sqlite"):
+        for i, sc in enumerate(c02.SCENARIOS):
+            if sc["name"] in ("single", "dup", "kill", "recovery", "retry"):
+                jobs3.append((kind, i, "dfs", 1 if ctx.quick else 2, 150 if ctx.quick else 4000, ctx.seed, known, False, "races", RACE_RULE))
+                jobs3.append((kind, i, "rand", 0, 25 if ctx.quick else 1000, ctx.seed + 5, known, False, "races", RACE_RULE))
+                jobs3.append((kind, i, "pct", 0, 60 if ctx.quick else 2000, ctx.seed + 9, known, False, "races", RACE_RULE))
+    merge_parts(ctx, pmap(c02.shard, jobs3))
 
 
 def replay(case: dict) -> int:
